@@ -69,6 +69,9 @@ class Gen:
         rs = self.rs
         pool = [["in", "a"], ["in", "b"], ["in", "c"]] + [["sig", n] for n in env["read_bit"]] + ([["var", "w0"]] if "w0" in env["vars_bit"] else [])
         pool.append(["bitof", rs.choice(["d", "u"]), rs.below(4)])
+        # a bit of an input vector selected by a run-time index (2 bits of an input): the index is an intermediate value
+        # of its own, also when the expression is hoisted out of the process with cohdl.always
+        pool.append(["rtbit", rs.choice(["d", "u"]), rs.choice(["d", "u"]), rs.below(3)])
         return rs.choice(pool)
 
     def bexpr(self, env, depth=0):
@@ -420,6 +423,8 @@ def r_b(e):
         return f"({r_b(e[1])} {'&' if k == 'band' else '|' if k == 'bor' else '^'} {r_b(e[2])})"
     if k == "bitof":
         return f"{r_name(e[1])}[{e[2]}]"
+    if k == "rtbit":
+        return f"{r_name(e[1])}[{r_name(e[2])}[{e[3] + 1}:{e[3]}].unsigned]"
     raise AssertionError(k)
 
 
